@@ -10,7 +10,11 @@ R: harness/t/epochs replays them on a real chain (common.Tester through chainx, 
    atomic txs) after an unlogged warm-up that moves the genesis parameters out of the memory
    window; after every step the answers of GetEpochStartForBlock / GetNextEpoch / BlocksToSave /
    GetEpochHash for the whole window, EpochDetails, LatestParamChange and the fixation lists.
-V: Trace_Epochs in Obs mode: TLC evaluates the C16 properties on the real answers (decides).
+   Also logged: the queries about the current block - GetCurrentNextEpoch, GetNextEpoch(height),
+   IsEpochStart, GetEpochStartForBlock(height), GetPreviousEpochStartForBlock(height).
+V: Trace_Epochs in Obs mode: TLC evaluates the C16 properties on the real answers (decides), incl.
+   CurNext (announced next epoch > height and = GetNextEpoch), Announced (epoch-start processing runs
+   at b iff b was announced at b-1), CurStart.
    Conf mode (row = step of Epochs.tla, all logged fields equal) is reported as drift only.
 """
 import os
@@ -44,6 +48,13 @@ def _context(name, prev, row):
             if late and all(win[e]["bts"] > first for e in late):
                 return "blocks-to-save-grew-inside-walk"
         return "other"
+    if name in ("CurNext", "Announced"):
+        # is an EpochBlocks change pending (raw parameter differs from the length of the current epoch)?
+        ref = prev if (name == "Announced" and prev is not None) else row
+        cur = ref["win"][-1] if ref["win"] else None
+        if cur is not None and ref["eb"] != cur["nx"] - cur["es"]:
+            return "epochblocks-change-pending"
+        return "other"
     if name == "NoPanic":
         return (row.get("panics") or "")[:60]
     return row.get("ev", "")
@@ -61,7 +72,7 @@ def _obs(ctx, tpath, rows, tag):
         prev = rows[line - 2] if line >= 2 and rows[line - 1]["ev"] != "reset" else None
         found.append({"name": name, "line": line, "beh": row["beh"], "sig": "%s@%s" % (name, _context(name, prev, row)),
                       "event": {k: row.get(k) for k in ("ev", "v", "ok", "panic", "panics", "h", "eb", "ets", "lpc",
-                                                        "start", "earliest", "deleted", "step")}})
+                                                        "start", "earliest", "deleted", "curnext", "nextcur", "rannow", "step")}})
     return found
 
 
